@@ -505,3 +505,54 @@ def ver4_stdlib_api(ctx: Ctx) -> None:
 
 
 RULES = [ver0_compiles, ver1_opcodes, ver2_dispatch, ver3_bindings, opc4_names, ver4_stdlib_api]
+
+
+def ver5_introspection_attrs(ctx: Ctx) -> None:
+    """VER-5 attributes of the interpreter's introspection objects (code / frame / generator / coroutine / async generator /
+    dis.Instruction), recognised by their conventional prefixes, exist on every interpreter under which the access is reachable"""
+    IA = {v: ctx.F["interp"][v]["introspection_attrs"] for v in ctx.V.all}
+    n = 0
+    for mn in VER_MODULES:
+        mod = ctx.P.mod(mn)
+        reach = ctx.reach(mod)
+        # names of variables that hold ctypes views (their f_* fields are stackscope's own declarations, checked by LAY)
+        ctypes_vars = set()
+        for a in ast.walk(mod.tree):
+            if isinstance(a, ast.Assign) and isinstance(a.targets[0], ast.Name) and (".from_address(" in norm(a.value) or norm(a.value).endswith(".contents")):
+                ctypes_vars.add(a.targets[0].id)
+        for node in ast.walk(mod.tree):
+            if not isinstance(node, ast.Attribute) or not isinstance(node.ctx, ast.Load):
+                continue
+            attr = node.attr
+            pref = next((p for p in ("co_", "gi_", "cr_", "ag_", "tb_", "f_") if attr.startswith(p)), None)
+            kind = pref
+            if pref is None:
+                # dis.Instruction fields on the conventional variable names
+                if isinstance(node.value, ast.Name) and node.value.id in ("insn", "ins", "instr") or (isinstance(node.value, ast.Subscript) and norm(node.value.value) == "insns"):
+                    kind = "instruction"
+                else:
+                    continue
+            if pref == "f_":
+                root = node.value
+                if isinstance(root, ast.Name) and (root.id in ctypes_vars or root.id == "self"):
+                    continue
+                if attr in ("f_stacktop", "f_stackdepth", "f_valuestack", "f_iblock", "f_frame", "f_func"):
+                    continue  # C-level fields only reachable through the ctypes views
+            live = reach.live.get(id(node))
+            if not live:
+                continue
+            n += 1
+            bad = sorted(v for v in live if attr not in IA[v][kind])
+            if bad:
+                ctx.R.fail("VER-5", mod, node, f"`.{attr}` is read on a path reachable under CPython {fmt(live)} but {'dis.Instruction' if kind == 'instruction' else 'the ' + kind + '* objects'} "
+                           f"have no such attribute on {bad}: AttributeError there (contained as an InspectionWarning / Stack.error at best, invisible to the 3.12-only suite)",
+                           construct=f".{attr} in {norm(_stmt(mod, node))[:100]}")
+            else:
+                ctx.R.ok("VER-5", f"{mn}.{mod.qualname_of(node)}: .{attr}", f"exists on {fmt(live)}")
+    if n < 60:
+        raise AnalysisError(f"VER-5: only {n} introspection attribute reads found (>= 60 confirmed by hand)")
+
+
+RULES = [ver0_compiles, ver1_opcodes, ver2_dispatch, ver3_bindings, opc4_names, ver4_stdlib_api, ver5_introspection_attrs]
+
+API = [ver4_stdlib_api, ver5_introspection_attrs]
